@@ -38,7 +38,14 @@ extern "C" { void pr_step(unsigned s); unsigned char pr_draw(void); unsigned cha
 #ifndef LIMIT
 #define LIMIT 2
 #endif
+#ifndef MANUAL
+#define MANUAL 0      // 1: manual activation; the steps include exit() and re-activation (the attachment outlives both)
+#endif
+#if MANUAL
+using M = ffsm2::MachineT<ffsm2::Config::TaskCapacityN<2>::SubstitutionLimitN<LIMIT>::ManualActivation>;
+#else
 using M = ffsm2::MachineT<ffsm2::Config::TaskCapacityN<2>::SubstitutionLimitN<LIMIT>>;
+#endif
 struct SA; struct SB; struct SC; struct Rt;
 #if HEAD
 using FSM = M::Root<Rt, SA, SB, SC>;
@@ -232,6 +239,10 @@ extern "C" void VCAT(VERIF_PREFIX, scenario)(void)
   Inst m;
 #endif
   active_at_call = -1;
+#if MANUAL
+  end_call();
+  m.enter();
+#endif
   end_call();
 #if ROLE == 1
   pr_rec(0x80 + m.activeStateId());
@@ -246,6 +257,11 @@ extern "C" void VCAT(VERIF_PREFIX, scenario)(void)
 #endif
     unsigned char op = draw();
     active_at_call = m.activeStateId(); n_method_records = 0;
+#if MANUAL
+    if (!m.isActive()) m.enter();
+    else if (op == 7) m.exit();
+    else
+#endif
     if (op == 0) { plan_step = true; m.update(); plan_step = false;
 #if ROLE == 0
       if (attached && LOGMODE == 2 && s != at) vassert(n_method_records >= 6, 1608);   // verbose: one record per delivery (root and state, three phases), defined or not
@@ -289,10 +305,14 @@ extern "C" void VCAT(VERIF_PREFIX, scenario)(void)
   }
 #if ROLE == 0
   vwitness(9001);
-  active_at_call = m.activeStateId();
-  return 0;
 #else
   pr_step(KSTEPS + 1);
+#endif
   active_at_call = m.activeStateId();
+#if MANUAL
+  if (m.isActive()) { m.exit(); end_call(); }
+#endif
+#if ROLE == 0
+  return 0;
 #endif
 }
